@@ -392,6 +392,12 @@ def _corpus_families(big):
     for extra in ([], [{"k": "MinimumTrials", "n": 6}]):
         out.append({"factors": [wc2, sz2, loud], "block": {"k": "cross", "design": [0, 1, 2], "crossing": [0, 1], "rcc": False,
                     "cs": [{"k": "Exclude", "f": 2, "l": 0}] + extra}})
+    # MinimumTrials given to the Nest itself, not a multiple of the inner length (rounded up to whole inner runs)
+    oa, isx = _sf(0, ["A1", "A2"]), _sf(10, ["s1", "s2", "s3"])
+    for mt in (7, 10, 6, 5):
+        out.append({"factors": [oa, isx], "block": {"k": "nest", "cs": [{"k": "MinimumTrials", "n": mt}], "align": None,
+                    "outer": {"k": "cross", "design": [0], "crossing": [0], "rcc": True, "cs": []},
+                    "inner": {"k": "cross", "design": [10], "crossing": [10], "rcc": True, "cs": []}}})
     o, i1, i2 = _sf(0, ["o1", "o2"]), _sf(10, ["i1", "i2"]), _sf(11, ["u", "v"])
     for ics in ([], [{"k": "AtMostKInARow", "n": 1, "f": 11, "l": 0}], [{"k": "Pin", "idx": 0, "f": 11, "l": 1}]):
         for ocs in ([], [{"k": "Pin", "idx": -1, "f": 0, "l": 0}]):
